@@ -73,6 +73,8 @@ func genCase(r *hx.Rand, big bool) *Case {
 	if !big && nb > 4 {
 		nb = 1 + r.Intn(4)
 	}
+	// "ties" mode: differently spelled but numerically equal values in a non-last @num field
+	tiesMode := r.Chance(1, 8)
 	var names []string
 	seen := map[string]bool{}
 	for len(names) < nb {
@@ -83,7 +85,9 @@ func genCase(r *hx.Rand, big bool) *Case {
 		if r.Chance(1, 3) {
 			n += "/size=" + hx.Pick(r, sizes)
 		}
-		if r.Chance(1, 3) {
+		if tiesMode {
+			n += "/bs=" + hx.Pick(r, bsPool[:4])
+		} else if r.Chance(1, 3) {
 			n += "/bs=" + hx.Pick(r, bsPool)
 		}
 		switch r.Intn(4) {
@@ -252,7 +256,11 @@ func genCase(r *hx.Rand, big bool) *Case {
 		c.tag("duplabel")
 	}
 	// flags
-	if r.Chance(2, 3) {
+	if tiesMode {
+		c.tag("numties")
+		c.Flags = append(c.Flags, hx.Pick(r, [][]string{{"-row", "/bs@num,.name"}, {"-row", "/bs@num,/format"}, {"-col", "/bs@num,.file", "-row", ".name"},
+			{"-row", "/bs@num,.fullname"}, {"-table", "/bs@num,.config", "-row", ".name"}})...)
+	} else if r.Chance(2, 3) {
 		add := func(name string, pool []string, num, den int) {
 			if r.Chance(num, den) {
 				c.Flags = append(c.Flags, "-"+name, hx.Pick(r, pool))
